@@ -24,6 +24,11 @@ use std::path::PathBuf;
 #[verifier::external_body]
 pub struct ExPathBuf(std::path::PathBuf);
 pub struct IoError { e: u8 }
+// std::io::Error::kind() / std::io::ErrorKind: any kind may come with any failed read
+#[derive(PartialEq, Eq, Structural, Clone, Copy)]
+pub enum IoErrorKind { NotFound, PermissionDenied, InvalidData, Other }
+pub mod io { pub use super::IoErrorKind as ErrorKind; pub use super::IoError as Error; }
+impl IoError { #[verifier::external_body] pub fn kind(&self) -> (r: IoErrorKind) { unimplemented!() } }
 pub struct ParseError { e: u8 }
 // what is loaded, in order
 pub struct Zone { pub z: u64 }
